@@ -69,6 +69,9 @@ VerdictG(p, e, s) ==
                   latched == Len(firstErr) > 0
               IN IF e.builderr # (latched \/ e.pzero \/ e.mzero) THEN V("builder-error-latch", latched, e.builderr)
                  ELSE IF e.keyerr # latched THEN V("builder-key-error", latched, e.keyerr)
+                 \* Key() is the key the builder was given / derived from the hash (first 16 bytes) / drew at random
+                 ELSE IF "keyok" \in DOMAIN e /\ ~e.keyok THEN V("builder-key", "the key set last", "another key")
+                 ELSE IF "randkeys_differ" \in DOMAIN e /\ ~e.randkeys_differ THEN V("builder-random-key-repeats", "distinct", "equal")
                  ELSE IF ~e.builderr /\ e.n # Cardinality({e.added[k] : k \in 1..Len(e.added)}) THEN V("builder-deduplication", Cardinality({e.added[k] : k \in 1..Len(e.added)}), e.n)
                  \* whatever happened on the way (intermediate Builds, parameters set again afterwards): the result is the
                  \* filter of the builder's final key, P, M and entry set
